@@ -13,3 +13,6 @@ import TlxVerif.Props.C16
 #print axioms TlxVerif.C16.sv_destroy
 #print axioms TlxVerif.C16.sv_moveAssign
 #print axioms TlxVerif.C16.sv_fill_set
+#print axioms TlxVerif.C16.sv_resize_throw
+#print axioms TlxVerif.C16.sv_new_throw
+#print axioms TlxVerif.C16.sv_resize_nothrow
